@@ -106,6 +106,11 @@ var kernelList = []kernelSpec{
 	{"x/house/types", "", "validateHouseParticipationFee"},
 	{"x/house/types", "", "validateMaxWithdrawalCount"},
 	{"x/house/types", "Params", "Validate"},
+	{"x/market/types", "", "validateMarketTS"},
+	{"x/market/types", "MarketUpdateTicketPayload", "Validate"},
+	{"x/market/types", "MarketResolutionTicketPayload", "Validate"},
+	{"x/subaccount/keeper", "", "sumLockedBalance"},
+	{"x/reward/types", "Campaign", "CheckTS"},
 }
 
 // structs that only occur as parameters
@@ -183,6 +188,12 @@ func isCoin(t types.Type) bool {
 	return ok && n.Obj().Pkg() != nil && n.Obj().Pkg().Path() == "github.com/cosmos/cosmos-sdk/types" && n.Obj().Name() == "Coin"
 }
 
+// isCtx: sdk.Context, of which the translated code only reads the block time (Unix seconds)
+func isCtx(t types.Type) bool {
+	n, ok := t.(*types.Named)
+	return ok && n.Obj().Pkg() != nil && n.Obj().Pkg().Path() == "github.com/cosmos/cosmos-sdk/types" && n.Obj().Name() == "Context"
+}
+
 func isBigInt(t types.Type) bool {
 	if p, ok := t.(*types.Pointer); ok {
 		t = p.Elem()
@@ -192,7 +203,7 @@ func isBigInt(t types.Type) bool {
 }
 
 func (k *ktrans) galType(t types.Type) (string, bool) {
-	if mathType(t) != "" || isCoin(t) || isBigInt(t) {
+	if mathType(t) != "" || isCoin(t) || isBigInt(t) || isCtx(t) {
 		return "Z", false
 	}
 	if s := k.structOf(t); s != "" {
@@ -523,10 +534,33 @@ func (c *fctx) call(e *ast.CallExpr) string {
 			}
 		}
 	case *ast.SelectorExpr:
+		// ctx.BlockTime().Unix(): the context IS the block time
+		if f.Sel.Name == "Unix" && len(e.Args) == 0 {
+			if inner, ok := f.X.(*ast.CallExpr); ok {
+				if isel, ok := inner.Fun.(*ast.SelectorExpr); ok && isel.Sel.Name == "BlockTime" && isCtx(c.info.TypeOf(isel.X)) {
+					return c.expr(isel.X)
+				}
+			}
+		}
 		// package function
 		if id, ok := f.X.(*ast.Ident); ok {
 			if pn, ok := c.info.Uses[id].(*types.PkgName); ok {
 				path := pn.Imported().Path()
+				if fn, ok := c.info.Uses[f.Sel].(*types.Func); ok {
+					if g, ok := c.k.fn[fn]; ok {
+						return fmt.Sprintf("(%s %s)", g, strings.Join(args, " "))
+					}
+					if c.k.assume[fn] {
+						return "true"
+					}
+				}
+				if path == "github.com/spf13/cast" && (f.Sel.Name == "ToUint64" || f.Sel.Name == "ToInt64") && len(args) == 1 {
+					return args[0] // convention: the converted value is in range
+				}
+				if path == repoModule+"/utils" && f.Sel.Name == "IsValidUID" && len(args) == 1 {
+					// convention: identifiers are the harness's integers, the invalid spellings are the negative ones
+					return fmt.Sprintf("(0 <=? %s)", args[0])
+				}
 				if path == "cosmossdk.io/math" || path == "github.com/cosmos/cosmos-sdk/types" {
 					switch f.Sel.Name {
 					case "ZeroInt", "LegacyZeroDec":
